@@ -16,7 +16,7 @@ Section Traverse.
   Hypothesis KR : kids_rep par cf t N.
 
   Lemma kids_of u ks : 0 <= u < N -> children cf t u = Ok ks -> forall c, In c ks <-> par c = Some u.
-  Proof. intros R H. destruct (KR u R) as (ks' & H' & K). rewrite H in H'. inversion H'; subst. exact K. Qed.
+  Proof. intros R H. destruct (KR u R) as (ks' & H' & _ & K). rewrite H in H'. inversion H'; subst. exact K. Qed.
 
   (* the nodes popped by the stack loop are exactly the descendants of the stack entries *)
   Lemma dfs_spec : forall fuel cap stack vis,
